@@ -297,6 +297,14 @@ fn directed_programs() -> Vec<Program> {
                 ("entry", IdKind::Function, None), ("x", IdKind::Param, None), ("y", IdKind::Local, None),
             ],
         ),
+        (
+            // constant buffers inside namespaces, read from inside and outside: their members are named through the namespace
+            "namespace @NS@\n{\n    cbuffer @CB@\n    {\n        float4 @cv@;\n    }\n    float @g@()\n    {\n        return @cv@.y;\n    }\n    namespace @IN@\n    {\n        cbuffer @CD@\n        {\n            float @dv@;\n        }\n        float @h@()\n        {\n            return @dv@ + @cv@.z;\n        }\n    }\n}\nfloat @entry@(float @x@)\n{\n    return @NS@::@cv@.x + @NS@::@g@() + @NS@::@IN@::@dv@ + @NS@::@IN@::@h@() + @x@;\n}\n",
+            vec![
+                ("NS", IdKind::Namespace, None), ("CB", IdKind::Struct, Some("NS")), ("cv", IdKind::Member, None), ("g", IdKind::Function, None), ("IN", IdKind::Namespace, None),
+                ("CD", IdKind::Struct, None), ("dv", IdKind::Member, None), ("h", IdKind::Function, None), ("entry", IdKind::Function, None), ("x", IdKind::Param, None),
+            ],
+        ),
     ];
     let mut out = Vec::new();
     for (text, ids) in specs {
@@ -322,7 +330,8 @@ fn make_case(seed: u64, index: u64) -> Case {
     if index % 16 == 15 {
         // a directed program under an adversarial naming that shares names between the namespaces
         let programs = directed_programs();
-        let program = programs[(index / 16) as usize % programs.len()].clone();
+        // (index / 16 is never 2 mod 3 here: those indices are the resource programs of `run`; divide once more)
+        let program = programs[(index / 48) as usize % programs.len()].clone();
         let mut s1 = naming(&program, &mut rng, true);
         for kind in [IdKind::Struct, IdKind::Enum, IdKind::Global] {
             if rng.chance(2, 3) {
@@ -333,6 +342,19 @@ fn make_case(seed: u64, index: u64) -> Case {
                     s1.adversarial.push(same[1]);
                     if kind == IdKind::Global {
                         s1.shared_global_name = true;
+                    }
+                }
+            }
+        }
+        if program.template.contains("cbuffer") {
+            // namespaces spelled like words one of the targets reserves (RSSL accepts them): the exporters have to rename them
+            const WORDS: &[&str] = &["vector", "matrix", "string", "shared", "pass", "technique", "texture", "sampler", "kernel", "device", "constant", "thread", "fragment", "vertex", "half3", "uint2"];
+            for i in 0..program.idents.len() {
+                if program.idents[i].kind == IdKind::Namespace && rng.chance(2, 3) {
+                    let w = rng.pick(WORDS).to_string();
+                    if !s1.names.contains(&w) {
+                        s1.names[i] = w;
+                        s1.adversarial.push(i);
                     }
                 }
             }
@@ -455,7 +477,7 @@ pub fn examine(case: &Case, origin: &str, seed: u64, report: &mut Report) -> boo
                     let kind_class = d.kind;
                     // the name generator has no notion of struct members, methods, enumerators and namespaces-as-reserved: for
                     // those kinds the defect is the missing mechanism, whatever the name
-                    let unprotected = matches!(d.kind, "member" | "method" | "enum-value" | "namespace");
+                    let unprotected = matches!(d.kind, "member" | "method" | "enum-value" | "namespace" | "cbuffer" | "cbuffer-member");
                     report.count(&format!("reserved-hit:{}", d.name));
                     report.violation(
                         &format!("reserved-name-declared:{}:{}:{}", if t == Tgt::Msl { "msl" } else { "hlsl" }, kind_class, if unprotected { "any-reserved-name" } else { names::name_class(&d.name, t == Tgt::Msl) }),
@@ -489,6 +511,22 @@ pub fn examine(case: &Case, origin: &str, seed: u64, report: &mut Report) -> boo
                     witness(Json::obj().set("first", a.kind).set("second", b.kind).set("name", a.name.as_str()).set("scope", a.scope.as_str()).set("naming", which)),
                 );
             }
+            // every qualified name starts at something the emitted text declares (a namespace, struct or enum), or at the target's
+            // library namespace
+            {
+                let scopes: HashSet<&str> = declared.iter().filter(|d| matches!(d.kind, "namespace" | "struct" | "enum")).map(|d| d.name.as_str()).collect();
+                let mut seen_roots: HashSet<String> = HashSet::new();
+                for (root, full, user) in decls::qualified_name_roots(tree) {
+                    if scopes.contains(root.as_str()) || root == "metal" || !seen_roots.insert(root.clone()) {
+                        continue;
+                    }
+                    report.violation(
+                        "qualified-name-starts-at-nothing-declared",
+                        &format!("the emitted {} names `{}` in {}, but declares no namespace, struct or enum called `{}`", t.name(), full, user, root),
+                        witness(Json::obj().set("name", full.as_str()).set("function", user.as_str()).set("naming", which)),
+                    );
+                }
+            }
             // every call names a function that is visible from the call site
             for (callee, caller) in decls::invisible_calls(tree) {
                 report.violation(
@@ -505,7 +543,7 @@ pub fn examine(case: &Case, origin: &str, seed: u64, report: &mut Report) -> boo
                 let user_locals: HashSet<&str> = p.idents.iter().enumerate().filter(|(_, id)| matches!(id.kind, IdKind::Local | IdKind::Param)).map(|(i, _)| names_now[i].as_str()).collect();
                 let user_globals: HashSet<&str> = p.idents.iter().enumerate().filter(|(_, id)| !matches!(id.kind, IdKind::Local | IdKind::Param)).map(|(i, _)| names_now[i].as_str()).collect();
                 let mut seen: HashSet<(String, &'static str)> = HashSet::new();
-                for g in declared.iter().filter(|d| !d.scope.contains("()") && matches!(d.kind, "global" | "function" | "struct" | "enum" | "enum-value" | "typedef" | "cbuffer")) {
+                for g in declared.iter().filter(|d| !d.scope.contains("()") && matches!(d.kind, "global" | "cbuffer-member" | "function" | "struct" | "enum" | "enum-value" | "typedef" | "cbuffer")) {
                     if user_locals.contains(g.name.as_str()) && !user_globals.contains(g.name.as_str()) {
                         if let Some(l) = declared.iter().find(|d| matches!(d.kind, "local" | "parameter") && d.name == g.name) {
                             if seen.insert((g.name.clone(), g.kind)) {
